@@ -1,3 +1,112 @@
 import HapVerif.Model.C11
+import HapVerif.Generated.Facts
+/-!
+# C11 — no needless reloads (slot arithmetic of `alignSlots`)
+
+`align_post`: after every reload-time `alignSlots` a dynamic backend has at least `slots-min-free`
+empty slots, a slot count that is a multiple of `backend-server-slots-increment`, and at least one
+slot — for every endpoint list and every setting.  The "fits ⇒ no reload" and "no-op ⇒ no reload"
+clauses are theorems about `checkBackendPair` (see `Props/C02.lean`, shared model) and are
+searched on the implementation by the `fits`/`noop` cases of the harness.
+-/
 namespace HapVerif.C11
+open HapVerif.C02
+
+theorem addEmpty_length (b : Back) : (addEmpty b).eps.length = b.eps.length + 1 := by
+  simp [addEmpty]
+
+theorem addEmpty_dyn (b : Back) : (addEmpty b).dynUpdate = b.dynUpdate := rfl
+
+theorem mkEmpty_isEmpty (n : String) (w : Int) : (mkEmpty n w).isEmpty = true := by
+  simp [mkEmpty, EP.isEmpty]
+
+theorem addEmpty_free (b : Back) :
+    ((addEmpty b).eps.filter (·.isEmpty)).length = (b.eps.filter (·.isEmpty)).length + 1 := by
+  simp [addEmpty, List.filter_append, mkEmpty_isEmpty]
+
+theorem addEmpty_prefix (b : Back) : (addEmpty b).eps.take b.eps.length = b.eps := by
+  simp [addEmpty]
+
+/-- adding `n` empty endpoints -/
+def addN (b : Back) (n : Nat) : Back := (List.range n).foldl (fun b _ => addEmpty b) b
+
+theorem foldl_addEmpty (l : List Nat) (b : Back) :
+    (l.foldl (fun b _ => addEmpty b) b).eps.length = b.eps.length + l.length ∧
+    ((l.foldl (fun b _ => addEmpty b) b).eps.filter (·.isEmpty)).length = (b.eps.filter (·.isEmpty)).length + l.length ∧
+    (l.foldl (fun b _ => addEmpty b) b).eps.take b.eps.length = b.eps := by
+  induction l generalizing b with
+  | nil => simp
+  | cons x xs ih =>
+    simp only [List.foldl_cons, List.length_cons]
+    obtain ⟨h1, h2, h3⟩ := ih (addEmpty b)
+    refine ⟨by rw [h1, addEmpty_length]; omega, by rw [h2, addEmpty_free]; omega, ?_⟩
+    have : b.eps.length ≤ (addEmpty b).eps.length := by rw [addEmpty_length]; omega
+    have h4 := congrArg (List.take b.eps.length) h3
+    rw [List.take_take, Nat.min_eq_left this] at h4
+    rw [h4, addEmpty_prefix]
+
+theorem block_arith (len bs : Nat) (hbs : 1 ≤ bs) :
+    (len + (bs - (((len + bs - 1) % bs) + 1))) % bs = 0 := by
+  have hr : (len + bs - 1) % bs < bs := Nat.mod_lt _ (by omega)
+  have hq := Nat.div_add_mod (len + bs - 1) bs
+  generalize (len + bs - 1) % bs = r at hr hq
+  generalize hq' : bs * ((len + bs - 1) / bs) = t at hq
+  by_cases hl : len = 0
+  · subst hl
+    have : r = bs - 1 := by
+      have : (0 + bs - 1) / bs = 0 := by
+        apply Nat.div_eq_of_lt; omega
+      rw [this] at hq'; simp at hq'; omega
+    subst this
+    have : 0 + (bs - (bs - 1 + 1)) = 0 := by omega
+    rw [this]; simp
+  · have : len + (bs - (r + 1)) = t := by omega
+    rw [this, ← hq']; exact Nat.mul_mod_right _ _
+
+/-- **align_post** — every reload leaves each dynamic backend with at least `minFree` empty slots, a
+slot count that is a (positive) multiple of the block size, and its existing endpoints untouched. -/
+theorem align_post (b : Back) (minFree blockSize : Nat) (hd : b.dynUpdate = true) :
+    alignPost (alignSlots b minFree blockSize).eps minFree blockSize = true ∧
+    (alignSlots b minFree blockSize).eps.take b.eps.length = b.eps := by
+  unfold alignSlots alignPost blockOf
+  simp only [hd, Bool.not_true, Bool.false_eq_true, if_false]
+  generalize hbs : (if blockSize < 1 then 1 else blockSize) = bs
+  have hbs1 : 1 ≤ bs := by subst hbs; split <;> omega
+  by_cases h0 : minFree = 0 ∧ b.eps.length = 0
+  · simp only [h0, and_self, if_true]
+    obtain ⟨h1, h2, h3⟩ := foldl_addEmpty (List.range bs) b
+    simp only [List.length_range] at h1 h2
+    refine ⟨?_, by simpa [h0.2] using h3⟩
+    simp only [Bool.and_eq_true, decide_eq_true_eq]
+    rw [h1, h0.2]
+    refine ⟨⟨by omega, by simp⟩, by omega⟩
+  · simp only [h0, if_false]
+    generalize hf : (b.eps.filter (·.isEmpty)).length = free
+    obtain ⟨h1, h2, h3⟩ := foldl_addEmpty (List.range (minFree - free)) b
+    simp only [List.length_range] at h1 h2
+    generalize hb1 : (List.range (minFree - free)).foldl (fun b _ => addEmpty b) b = b1 at h1 h2 h3
+    generalize hn : bs - (((b1.eps.length + bs - 1) % bs) + 1) = n
+    obtain ⟨g1, g2, g3⟩ := foldl_addEmpty (List.range n) b1
+    simp only [List.length_range] at g1 g2
+    refine ⟨?_, ?_⟩
+    · simp only [Bool.and_eq_true, decide_eq_true_eq]
+      refine ⟨⟨by rw [g2, h2, hf]; omega, ?_⟩, ?_⟩
+      · rw [g1, ← hn]; exact block_arith _ _ hbs1
+      · have hfl : free ≤ b.eps.length := by rw [← hf]; exact List.length_filter_le _ _
+        rw [g1, h1]; omega
+    · have hle : b.eps.length ≤ b1.eps.length := by rw [h1]; omega
+      have := congrArg (List.take b.eps.length) g3
+      rw [List.take_take, Nat.min_eq_left hle] at this
+      rw [this, h3]
+
+/-- a static backend is left alone -/
+theorem align_static (b : Back) (minFree blockSize : Nat) (hd : b.dynUpdate = false) :
+    alignSlots b minFree blockSize = b := by
+  simp [alignSlots, hd]
+
+/-- non-vacuity: 3 endpoints, min-free 2, increment 4 -> 8 slots, 5 empty -/
+example : let b : Back := { eps := [mkEmpty "a" 1, mkEmpty "b" 1, mkEmpty "c" 1].map (fun e => { e with ip := "10.0.0.1" }),
+                            dynUpdate := true, resolver := false, cookiePreserve := false }
+    (alignSlots b 2 4).eps.length = 8 := by decide
+
 end HapVerif.C11
